@@ -221,6 +221,9 @@ func spaceOf(p *point, item []byte, mode string) int {
 	return 0
 }
 
+// floodPanic is the value with which a simulated peer unwinds a consumer that never stops asking.
+const floodPanic = "verifsim: request flood"
+
 // multiSeed is the run seed of the tape being executed (mode multi derives its faults from it).
 var multiSeed uint64
 
@@ -461,7 +464,11 @@ func deliver(res *core.Result, tp *Tape, pname string, item int, d int, desc str
 	inDelivery.Store(false)
 	res.Evals++
 	dd := deliveryDetail{Point: pname, Item: item, Mode: tp.Mode, Delivery: d, Damage: desc, Len: len(b), Repro: repro}
-	if panicked {
+	if panicked && strings.Contains(msg, floodPanic) {
+		// not a panic of the library: the harness unwound a consumer that kept asking its peer
+		dd.Panic = "the consumer sent more than 200 requests to its peer within one call"
+		engine.Violate(res, "nontermination|"+pname+"|request-flood", dd)
+	} else if panicked {
 		dd.Panic = msg
 		engine.Violate(res, "panic|"+pname+"|"+frame+"|"+panicClass(msg), dd)
 		res.Stats["panics"]++
